@@ -135,6 +135,7 @@ typedef struct {
 static ival_t ivals[MAXIV];
 static interval_t intervals[MAXIV];
 static int n_ivals, n_intervals;
+static int n_partial; /* intervals touched, including a partially parsed one */
 static int ref_big, ref_limit;
 
 static int is_sym(char c)
@@ -170,6 +171,7 @@ static int opt_num_stride(int64_t *num, int64_t *stride)
         return 0;
     if (*num >= MAX_REF_NUM) {
         ref_limit = 1;
+        *num = 1; /* rejected before anything is allocated for it */
         return 0;
     }
     if (!take_sym(':'))
@@ -179,7 +181,7 @@ static int opt_num_stride(int64_t *num, int64_t *stride)
 
 static int ref_parse(const char *s)
 {
-    n_ivals = n_intervals = 0;
+    n_ivals = n_intervals = n_partial = 0;
     ref_big = ref_limit = 0;
     tpos = 0;
     if (tokenize(s) != 0)
@@ -190,6 +192,8 @@ static int ref_parse(const char *s)
         interval_t *I = &intervals[n_intervals];
         I->first_ival = n_ivals;
         I->n_ival = 0;
+        I->num = I->stride = 1;
+        n_partial = n_intervals + 1; /* visible to the size estimate */
         int64_t v;
         if (take_int(&v)) {
             if (n_ivals >= MAXIV)
@@ -203,10 +207,11 @@ static int ref_parse(const char *s)
                 ival_t *iv = &ivals[n_ivals];
                 if (!take_int(&iv->id))
                     return 0;
-                if (!opt_num_stride(&iv->num, &iv->stride))
-                    return 0;
+                iv->num = iv->stride = 1;
                 n_ivals++;
                 I->n_ival++;
+                if (!opt_num_stride(&iv->num, &iv->stride))
+                    return 0;
                 if (take_sym(','))
                     continue;
                 if (!take_sym('}'))
@@ -248,22 +253,31 @@ static void check_one(const char *s0)
     n_cases++;
 
     int racc = ref_parse(s);
-    /* size of the expansion */
+    /* size of the expansion; a string that is rejected late (e.g.
+     * "0:9999,") has its leading intervals expanded before the error is
+     * found, so the estimate covers every interval the reference touched */
     long long tot_lists = 0, tot_ints = 0;
+    for (int i = 0; i < n_partial; i++) {
+        long long per = 0;
+        for (int j = 0; j < intervals[i].n_ival; j++) {
+            int64_t nn = ivals[intervals[i].first_ival + j].num;
+            per += nn > 0 ? nn : 1;
+        }
+        int64_t ni = intervals[i].num > 0 ? intervals[i].num : 1;
+        tot_lists += ni;
+        tot_ints += per * ni;
+    }
+    if (tot_lists > MAX_LISTS_RUN || tot_ints > MAX_INTS_RUN) {
+        /* would exhaust the engine's allocation ledger (or memory):
+         * counted, not run */
+        n_skipped_large++;
+        return;
+    }
     if (racc) {
-        for (int i = 0; i < n_intervals; i++) {
-            long long per = 0;
-            for (int j = 0; j < intervals[i].n_ival; j++)
-                per += ivals[intervals[i].first_ival + j].num;
+        /* exact figures for the comparison below */
+        tot_lists = tot_ints = 0;
+        for (int i = 0; i < n_intervals; i++)
             tot_lists += intervals[i].num;
-            tot_ints += per * intervals[i].num;
-        }
-        if (tot_lists > MAX_LISTS_RUN || tot_ints > MAX_INTS_RUN) {
-            /* would exhaust the engine's allocation ledger (or memory):
-             * counted, not run */
-            n_skipped_large++;
-            return;
-        }
     }
     if (ref_big)
         n_bigtok++;
